@@ -12,7 +12,7 @@ SEEDS="$@"; [ -z "$SEEDS" ] && SEEDS=$(ls seeded)
 for s in $SEEDS; do
   prop=$(python3 -c "import json;print(json.load(open('seeded/$s/meta.json'))['property'])")
   git -C "$WT" checkout -q -- . 
-  if ! git -C "$WT" apply "seeded/$s/patch.diff" 2>"$OUT/$s.apply.err"; then echo "$s ($prop): patch no longer applies to HEAD"; continue; fi
+  if ! git -C "$WT" apply "$PWD/seeded/$s/patch.diff" 2>"$OUT/$s.apply.err"; then echo "$s ($prop): patch no longer applies to HEAD"; continue; fi
   case $prop in C02|C04|C05) props="C05 C04 C02";; *) props=$prop;; esac
   res=""
   for p in $props; do ./check $p --tier quick > "$OUT/$s.$p.txt" 2>&1; rc=$?; res="$res $p:rc=$rc/viol=$(grep -c '^VIOLATION' "$OUT/$s.$p.txt")"; done
